@@ -76,12 +76,23 @@ Variable base : Z.
 Variable ix : nat -> Z.
 Definition ld (z : Z) : Z := rd64 m (base + z).
 
+(* offset of field i inside the image of a struct (pure arithmetic on image lengths) *)
+Definition field_off (fs : list ty) (es : list (list cell)) (i : nat) : Z :=
+  let sb := sumz (psz (spairs (firstn i fs) (firstn i es))) in
+  if len (dpairs fs es) =? 0 then sb
+  else match nth_error fs i with
+       | Some f => if is_static f then 8 + sb
+                   else 8 + sumz (psz (spairs fs es)) + 8 * (len (dpairs fs es) - 1) + sumz (psz (dpairs (firstn i fs) (firstn i es)))
+       | None => 0
+       end.
+
 Lemma field_sits fs vs es o i f w e cur :
   enc_list fs vs = Some es -> sits (enc_struct fs es) m o -> len (enc_struct fs es) < 2^62 ->
   nth_error fs i = Some f -> nth_error vs i = Some w -> nth_error es i = Some e ->
   seval ld ix cur = o - base ->
   exists a, field_addr fs i cur = Some (a, f) /\ sits e m (base + seval ld ix a) /\
-            o <= base + seval ld ix a /\ base + seval ld ix a + len e <= o + len (enc_struct fs es).
+            o <= base + seval ld ix a /\ base + seval ld ix a + len e <= o + len (enc_struct fs es) /\
+            base + seval ld ix a = o + field_off fs es i.
 Proof.
   intros Eel Hs Hl Hf Hw He Hcur. unfold ld in *.
   destruct (enc_list_length _ _ _ Eel) as [L1 L2].
@@ -101,7 +112,8 @@ Proof.
     rewrite Hpos in Hs. apply sits_app in Hs. destruct Hs as [_ Hs]. apply sits_padslot in Hs. destruct Hs as [Hs _].
     rewrite len_pimg, <- Hsb in Hs.
     eexists. split; [reflexivity|]. cbn [sadd sc seval]. rewrite Hcur. replace (base + (o - base + stat_before fs i)) with (o + stat_before fs i) by lia.
-    split; [exact Hs|]. rewrite len_pimg, HL. lia.
+    split; [exact Hs|]. rewrite len_pimg, HL. split; [lia|]. split; [lia|].
+    unfold field_off. rewrite Ed. change (len (@nil (ty * list cell)) =? 0) with true. cbv zeta. rewrite Hsb. reflexivity.
   - rewrite <- Ed in *. cbv zeta in *. rewrite !len_pimg, <- Hsl in *.
     assert (Ldp : 1 <= len (dpairs fs es)) by (rewrite Ed, len_cons; pose proof (len_nonneg ps); lia).
     replace (len (dpairs fs es) =? 0) with false by (symmetry; apply Z.eqb_neq; lia).
@@ -123,7 +135,8 @@ Proof.
       rewrite Hpos in S1. apply sits_app in S1. destruct S1 as [_ S1]. apply sits_padslot in S1. destruct S1 as [S1 _].
       rewrite len_pimg, <- Hsb in S1.
       eexists. split; [reflexivity|]. cbn [sadd sc seval]. rewrite Hcur. replace (base + (o - base + (8 + stat_before fs i))) with (o + 8 + stat_before fs i) by lia.
-      split; [exact S1|]. unfold hdr. lia.
+      split; [exact S1|]. split; [lia|]. split; [unfold hdr; lia|].
+      unfold field_off. replace (len (dpairs fs es) =? 0) with false by (symmetry; apply Z.eqb_neq; lia). rewrite Hf, Es. cbv zeta. rewrite Hsb. lia.
     + destruct Hpos as [post Hpos]. pose proof (f_equal len Hpos) as HL. rewrite !len_app, len_padslot, !len_pimg in HL. pose proof (len_nonneg post).
       rewrite Hpos in S3. apply sits_app in S3. destruct S3 as [_ S3]. apply sits_padslot in S3. destruct S3 as [S3 _].
       rewrite len_pimg in S3.
@@ -134,7 +147,8 @@ Proof.
       * apply Z.eqb_eq in Ek. assert (HDi : Di = []) by (destruct Di; [reflexivity|rewrite len_cons in Ek; pose proof (len_nonneg Di); lia]).
         rewrite HDi in S3, HL. change (sumz (psz [])) with 0 in S3, HL.
         eexists. split; [reflexivity|]. cbn [sadd sc seval]. rewrite Hcur. fold hdr.
-        replace (base + (o - base + hdr)) with (o + hdr + 0) by lia. split; [exact S3|]. unfold hdr in *. lia.
+        replace (base + (o - base + hdr)) with (o + hdr + 0) by lia. split; [exact S3|]. split; [unfold hdr in *; lia|]. split; [unfold hdr in *; lia|].
+        unfold field_off. replace (len (dpairs fs es) =? 0) with false by (symmetry; apply Z.eqb_neq; lia). rewrite Hf, Es. cbv zeta. fold Di. rewrite HDi. change (sumz (psz [])) with 0. unfold hdr. rewrite Hsl. lia.
       * apply Z.eqb_neq in Ek. pose proof (len_nonneg Di) as Hk0.
         eexists. split; [reflexivity|]. cbn [sadd sc seval]. rewrite Hcur.
         replace (base + (o - base + (8 + stat_len_of fs + 8 * (len Di - 1)))) with (o + 8 + stat_len_of fs + 8 * Z.of_nat (Z.to_nat (len Di - 1))) by lia.
@@ -153,7 +167,8 @@ Proof.
         { replace (length Di) with (S (Z.to_nat (len Di - 1))) by (unfold len in *; lia). destruct (offsets_from hdr (psz (dpairs fs es))); [destruct (Z.to_nat (len Di - 1)); reflexivity|reflexivity]. }
         rewrite Hnth, offsets_from_nth by (unfold psz; rewrite map_length; exact Hkl').
         rewrite <- psz_firstn, <- Hprefix.
-        replace (base + (o - base + (hdr + sumz (psz Di)))) with (o + hdr + sumz (psz Di)) by lia. split; [exact S3|]. unfold hdr in *. lia.
+        replace (base + (o - base + (hdr + sumz (psz Di)))) with (o + hdr + sumz (psz Di)) by lia. split; [exact S3|]. split; [unfold hdr in *; lia|]. split; [unfold hdr in *; lia|].
+        unfold field_off. replace (len (dpairs fs es) =? 0) with false by (symmetry; apply Z.eqb_neq; lia). rewrite Hf, Es. cbv zeta. fold Di. unfold hdr. rewrite Hsl. lia.
 Qed.
 End WithMem.
 
@@ -244,7 +259,8 @@ Lemma array_anatomy_dyn (m : mem) item shape order sh items img off : csize item
         rd64 m (off + 8 + 8 * ndyn shape + 8 * Z.of_nat j) = nth j (get_strides sh order 8) 0) /\
     (forall c, (c < Z.to_nat (prod sh))%nat ->
         let d := rd64 m (off + arr_header false shape + 8 * Perm.mem_pos sh order (unpos sh (Z.of_nat c))) in
-        sits (nth c es []) m (off + d) /\ 0 <= d /\ d + len (nth c es []) <= len img) /\
+        sits (nth c es []) m (off + d) /\ 0 <= d /\ d + len (nth c es []) <= len img /\
+        d = arr_header false shape + 8 * prod sh + sumz (firstn (Z.to_nat (Perm.mem_pos sh order (unpos sh (Z.of_nat c)))) (szs (es_mem_of sh order es)))) /\
     off + len img <= len m /\ 0 <= off.
 Proof.
   intros Ci H Hs Hl. destruct (sits_range _ _ _ Hs) as [R0 R1].
@@ -314,7 +330,7 @@ Proof.
     destruct (Hfn (szs es_mem) (Z.to_nat mp) (szs_nonneg es_mem) ltac:(unfold szs; rewrite map_length; lia)) as [F1 F2].
     assert (Hsz : nth (Z.to_nat mp) (szs es_mem) 0 = slot (len (nth c es []))).
     { unfold szs. rewrite (map_nth_in _ _ _ 0 []) by lia. rewrite Ex. reflexivity. }
-    rewrite Hsz in F2. pose proof (slot_spec (len (nth c es []))) as [[SA _] _]. lia.
+    rewrite Hsz in F2. pose proof (slot_spec (len (nth c es []))) as [[SA _] _]. split; [lia|]. split; [lia|]. reflexivity.
 Qed.
 
 (* ---------- the index step ---------- *)
@@ -349,8 +365,9 @@ Lemma index_sits item shape order sh items img o cur ic :
   enc (TArray item shape order) (VArr sh items) = Some img -> sits img m o -> len img < 2^62 ->
   seval ld ix cur = o - base -> Strides.in_range sh (idx_of ic (length shape)) ->
   let c := Z.to_nat (pos sh (idx_of ic (length shape))) in
-  exists a e, index_addr item shape order cur ic = Some a /\ (c < length items)%nat /\ enc item (nth c items VNull) = Some e /\ sits e m (base + seval ld ix a) /\
-              base + seval ld ix a + len e <= o + len img /\ o <= base + seval ld ix a.
+  exists a e es, index_addr item shape order cur ic = Some a /\ (c < length items)%nat /\ enc item (nth c items VNull) = Some e /\ sits e m (base + seval ld ix a) /\
+              base + seval ld ix a + len e <= o + len img /\ o <= base + seval ld ix a /\
+              seqopt (map (enc item) items) = Some es /\ base + seval ld ix a = o + item_pos item shape order sh es c.
 Proof.
   intros He Hs Hl Hcur Hir c.
   set (isz := match csize item with Some s => s | None => 8 end).
@@ -360,9 +377,10 @@ Proof.
     (forall c, (c < Z.to_nat (prod sh))%nat ->
         let d := if is_static item then arr_header true shape + isz * Perm.mem_pos sh order (unpos sh (Z.of_nat c))
                  else rd64 m (o + arr_header false shape + 8 * Perm.mem_pos sh order (unpos sh (Z.of_nat c))) in
-        sits (nth c es []) m (o + d) /\ 0 <= d /\ d + len (nth c es []) <= len img)).
-  { unfold isz, is_static. destruct (csize item) as [s|] eqn:Ci.
-    - destruct (array_anatomy_static m item shape order s sh items img o Ci He Hs Hl) as [es [A [B [C [D [E [F _]]]]]]]. exists es. split; [exact A|]. split; [exact B|]. split; [exact C|]. split; [exact D|]. split; [exact E|exact F].
+        sits (nth c es []) m (o + d) /\ 0 <= d /\ d + len (nth c es []) <= len img /\ d = item_pos item shape order sh es c)).
+  { unfold isz, is_static, item_pos. destruct (csize item) as [s|] eqn:Ci.
+    - destruct (array_anatomy_static m item shape order s sh items img o Ci He Hs Hl) as [es [A [B [C [D [E [F _]]]]]]]. exists es. split; [exact A|]. split; [exact B|]. split; [exact C|]. split; [exact D|]. split; [exact E|].
+      intros c0 Hc0. destruct (F c0 Hc0) as [F1 [F2 F3]]. cbv zeta. split; [exact F1|]. split; [exact F2|]. split; [exact F3|reflexivity].
     - destruct (array_anatomy_dyn m item shape order sh items img o Ci He Hs Hl) as [es [A [B [C [D [E [F _]]]]]]]. exists es. split; [exact A|]. split; [exact B|]. split; [exact C|]. split; [exact D|]. split; [exact E|exact F]. }
   destruct Han as [es [Ee [Gs [Gp [Gn [Hstr Hit]]]]]].
   destruct (perm_ok_is_perm _ _ Gp) as [P1 P2]. pose proof (shape_ok_length _ _ Gs) as Lsh.
@@ -402,10 +420,10 @@ Proof.
   assert (Hdot : seval ld ix (idx_dot ic ss) = isz * Perm.mem_pos sh order (idx_of ic (length shape))).
   { rewrite seval_idx_dot, Hev, Hls. apply Perm.strides_address; [exact P1|lia|exact Hir]. }
   assert (Hun : unpos sh (Z.of_nat c) = idx_of ic (length shape)) by (unfold c; rewrite Z2Nat.id by lia; apply unpos_pos; assumption).
-  specialize (Hit c Hc). rewrite Hun in Hit. cbv zeta in Hit. destruct Hit as [Hit [Hd0 Hd1]].
+  specialize (Hit c Hc). rewrite Hun in Hit. cbv zeta in Hit. destruct Hit as [Hit [Hd0 [Hd1 Hd2]]].
   unfold index_addr. fold isz. rewrite Ess.
   exists (if is_static item then sadd cur (sadd (sc (arr_header (is_static item) shape)) (idx_dot ic ss))
-          else sadd cur (SLoad (sadd cur (sadd (sc (arr_header (is_static item) shape)) (idx_dot ic ss))))), (nth c es []).
+          else sadd cur (SLoad (sadd cur (sadd (sc (arr_header (is_static item) shape)) (idx_dot ic ss))))), (nth c es []), es.
   split; [destruct (is_static item); reflexivity|]. split; [exact Hci|]. split; [apply Nes; exact Hci|].
   assert (Hplace : base + seval ld ix (if is_static item then sadd cur (sadd (sc (arr_header (is_static item) shape)) (idx_dot ic ss))
           else sadd cur (SLoad (sadd cur (sadd (sc (arr_header (is_static item) shape)) (idx_dot ic ss))))) =
@@ -417,9 +435,62 @@ Proof.
       assert (E8 : isz = 8) by (unfold isz; unfold is_static in Est; destruct (csize item); [discriminate|reflexivity]). rewrite E8.
       replace (base + (o - base + (arr_header false shape + 8 * Perm.mem_pos sh order (idx_of ic (length shape))))) with (o + arr_header false shape + 8 * Perm.mem_pos sh order (idx_of ic (length shape))) by lia.
       lia. }
-  rewrite Hplace. split; [exact Hit|]. lia.
+  rewrite Hplace. split; [exact Hit|]. split; [lia|]. split; [lia|]. split; [exact Ee|]. rewrite Hd2. reflexivity.
 Qed.
 End WithMem2.
+
+(* ---------- what the reference slots of the parts hold ---------- *)
+Lemma tok_static_child m : forall fs vs es o i f w, forallb is_static fs = true ->
+  tok_static_list m fs vs o -> enc_list fs vs = Some es -> nth_error fs i = Some f -> nth_error vs i = Some w ->
+  targets_ok f w m (o + sumz (psz (spairs (firstn i fs) (firstn i es)))).
+Proof.
+  induction fs as [|f0 fs IH]; intros vs es o i f w Hst Ht He Hf Hw; [destruct i; discriminate|].
+  destruct vs as [|v0 vs]; [destruct i; discriminate|]. cbn in He.
+  destruct (enc f0 v0) as [e0|] eqn:E0; [|discriminate]. destruct (enc_list fs vs) as [r|] eqn:Er; [|discriminate]. inversion He; subst es.
+  cbn [forallb] in Hst. apply andb_prop in Hst. destruct Hst as [S0 Sr].
+  cbn [tok_static_list] in Ht. rewrite E0 in Ht. destruct Ht as [T0 Tr].
+  destruct i as [|i]; cbn in Hf, Hw.
+  - inversion Hf; inversion Hw; subst. cbn [firstn]. change (sumz (psz (spairs [] []))) with 0. replace (o + 0) with o by lia. exact T0.
+  - cbn [firstn]. rewrite (spairs_cons_static f0 e0 _ _ S0), psz_cons, sumz_cons.
+    replace (o + (slot (len e0) + sumz (psz (spairs (firstn i fs) (firstn i r))))) with (o + slot (len e0) + sumz (psz (spairs (firstn i fs) (firstn i r)))) by lia.
+    eapply IH; eassumption.
+Qed.
+Lemma tok_dyn_child m off : forall fs vs es so dnext i f w,
+  tok_dyn_list m off fs vs so dnext -> enc_list fs vs = Some es -> nth_error fs i = Some f -> nth_error vs i = Some w ->
+  if is_static f then targets_ok f w m (off + (so + sumz (psz (spairs (firstn i fs) (firstn i es)))))
+  else targets_ok f w m (off + (dnext + sumz (psz (dpairs (firstn i fs) (firstn i es))))).
+Proof.
+  induction fs as [|f0 fs IH]; intros vs es so dnext i f w Ht He Hf Hw; [destruct i; discriminate|].
+  destruct vs as [|v0 vs]; [destruct i; discriminate|]. cbn in He.
+  destruct (enc f0 v0) as [e0|] eqn:E0; [|discriminate]. destruct (enc_list fs vs) as [r|] eqn:Er; [|discriminate]. inversion He; subst es.
+  cbn [tok_dyn_list] in Ht. rewrite E0 in Ht.
+  destruct i as [|i]; cbn in Hf, Hw.
+  - inversion Hf; inversion Hw; subst. cbn [firstn]. change (sumz (psz (spairs [] []))) with 0. change (sumz (psz (dpairs [] []))) with 0.
+    destruct (is_static f); destruct Ht as [T0 _]; [replace (off + (so + 0)) with (off + so) by lia|replace (off + (dnext + 0)) with (off + dnext) by lia]; exact T0.
+  - cbn [firstn]. destruct (is_static f0) eqn:S0; destruct Ht as [_ Tr]; pose proof (IH vs r _ _ i f w Tr Er Hf Hw) as H; destruct (is_static f);
+      rewrite ?(spairs_cons_static f0 e0 _ _ S0), ?(dpairs_cons_static f0 e0 _ _ S0), ?(spairs_cons_dyn f0 e0 _ _ S0), ?(dpairs_cons_dyn f0 e0 _ _ S0), ?psz_cons, ?sumz_cons;
+      match goal with |- targets_ok _ _ _ ?A => match type of H with targets_ok _ _ _ ?B => replace A with B by lia end end; exact H.
+Qed.
+Lemma dpairs_nonempty : forall fs es, length es = length fs -> forallb is_static fs = false -> 1 <= len (dpairs fs es).
+Proof.
+  induction fs as [|f fs IH]; intros [|e es] L H; cbn in L, H; try discriminate.
+  destruct (is_static f) eqn:Es; cbn in H.
+  - rewrite (dpairs_cons_static f e fs es Es). apply IH; [lia|exact H].
+  - rewrite (dpairs_cons_dyn f e fs es Es), len_cons. pose proof (len_nonneg (dpairs fs es)). lia.
+Qed.
+Lemma tok_field m fs vs es o i f w :
+  targets_ok (TStruct fs) (VStruct vs) m o -> enc_list fs vs = Some es -> nth_error fs i = Some f -> nth_error vs i = Some w ->
+  targets_ok f w m (o + field_off fs es i).
+Proof.
+  intros Ht He Hf Hw. rewrite targets_ok_struct_eq in Ht. destruct (enc_list_length _ _ _ He) as [L1 L2]. unfold field_off.
+  destruct (forallb is_static fs) eqn:Hst.
+  - assert (Ed : dpairs fs es = []) by (apply combine_filter_static; assumption). rewrite Ed. change (len (@nil (ty * list cell)) =? 0) with true. cbv zeta.
+    eapply tok_static_child; eassumption.
+  - pose proof (dpairs_nonempty fs es L1 Hst) as Hn. replace (len (dpairs fs es) =? 0) with false by (symmetry; apply Z.eqb_neq; lia).
+    rewrite Hf. pose proof (tok_dyn_child m o fs vs es _ _ i f w Ht He Hf Hw) as H.
+    rewrite <- (len_dpairs fs es L1), (stat_len_spairs fs vs es He) in H. cbv zeta.
+    destruct (is_static f); match goal with |- targets_ok _ _ _ ?A => match type of H with targets_ok _ _ _ ?B => replace A with B by lia end end; exact H.
+Qed.
 
 (* ---------- along an access path ---------- *)
 Section WithMem3.
@@ -428,7 +499,8 @@ Variable base : Z.
 Variable ix : nat -> Z.
 Notation ld := (ld m base).
 
-(* the element of value v (of type t) that a path denotes under the index arguments ix *)
+(* the element of value v (of type t) that a path denotes under the index arguments ix; a reference step
+   goes to the referent *)
 Inductive nav : ty -> val -> list cstep -> nat -> ty -> val -> nat -> Prop :=
 | N_nil t v ic : nav t v [] ic t v ic
 | N_field fs vs i f w r ic lt lv ic' :
@@ -438,66 +510,86 @@ Inductive nav : ty -> val -> list cstep -> nat -> ty -> val -> nat -> Prop :=
     Strides.in_range sh (idx_of ix ic (length shape)) ->
     nth_error items (Z.to_nat (pos sh (idx_of ix ic (length shape)))) = Some w ->
     nav item w r (ic + length shape) lt lv ic' ->
-    nav (TArray item shape order) (VArr sh items) (PIndex :: r) ic lt lv ic'.
+    nav (TArray item shape order) (VArr sh items) (PIndex :: r) ic lt lv ic'
+| N_ref target w r ic lt lv ic' :
+    nav target w r ic lt lv ic' ->
+    nav (TRef target) (VRef w) (PRef :: r) ic lt lv ic'.
 
+(* the address expression of the layout, evaluated on a buffer in which the object lies and whose
+   reference slots hold what they must, is the place of the addressed element; the element lies inside
+   the object it belongs to (which, after a reference step, is the referent) *)
 Theorem spec_addr_sits : forall t v p ic lt lv ic', nav t v p ic lt lv ic' ->
-  forall img o cur, enc t v = Some img -> sits img m o -> len img < 2^62 -> seval ld ix cur = o - base ->
+  forall img o cur, enc t v = Some img -> sits img m o -> len img < 2^62 -> targets_ok t v m o -> seval ld ix cur = o - base ->
   exists a e, spec_addr t p cur ic = Some (a, lt, ic') /\ enc lt lv = Some e /\ sits e m (base + seval ld ix a) /\
-              o <= base + seval ld ix a /\ base + seval ld ix a + len e <= o + len img.
+              targets_ok lt lv m (base + seval ld ix a) /\ len e < 2^62 /\
+              (~ In PRef p -> o <= base + seval ld ix a /\ base + seval ld ix a + len e <= o + len img).
 Proof.
-  induction 1 as [t v ic|fs vs i f w r ic lt lv ic' Hf Hw Hn IH|item shape order sh items r ic w lt lv ic' Hir Hw Hn IH]; intros img o cur He Hs Hl Hcur.
-  - exists cur, img. cbn [spec_addr]. rewrite Hcur. replace (base + (o - base)) with o by lia. split; [reflexivity|]. split; [exact He|]. split; [exact Hs|]. lia.
-  - rewrite enc_struct_eq in He. destruct (enc_list fs vs) as [es|] eqn:Eel; [|discriminate]. inversion He; subst img. clear He.
+  induction 1 as [t v ic|fs vs i f w r ic lt lv ic' Hf Hw Hn IH|item shape order sh items r ic w lt lv ic' Hir Hw Hn IH|target w r ic lt lv ic' Hn IH]; intros img o cur He Hs Hl Htok Hcur.
+  - exists cur, img. cbn [spec_addr]. rewrite Hcur. replace (base + (o - base)) with o by lia. split; [reflexivity|]. split; [exact He|]. split; [exact Hs|]. split; [exact Htok|]. split; [exact Hl|]. intros _. lia.
+  - pose proof He as He0. rewrite enc_struct_eq in He. destruct (enc_list fs vs) as [es|] eqn:Eel; [|discriminate]. inversion He; subst img. clear He.
     destruct (enc_list_nth fs vs es i f w Eel Hf Hw) as [ec [Hec Eoc]].
-    destruct (field_sits m base ix fs vs es o i f w ec cur Eel Hs Hl Hf Hw Hec Hcur) as [a1 [Ha1 [S1 [B1 B2]]]].
+    destruct (field_sits m base ix fs vs es o i f w ec cur Eel Hs Hl Hf Hw Hec Hcur) as [a1 [Ha1 [S1 [B1 [B2 Hpos]]]]].
     pose proof (len_nonneg ec).
     assert (Hl2 : len ec < 2^62) by lia.
     assert (Hc2 : seval ld ix a1 = base + seval ld ix a1 - base) by lia.
-    destruct (IH ec (base + seval ld ix a1) a1 Eoc S1 Hl2 Hc2) as [a [e [Ha [Ee [Se [C1 C2]]]]]].
-    exists a, e. cbn [spec_addr]. rewrite Ha1. split; [exact Ha|]. split; [exact Ee|]. split; [exact Se|]. lia.
-  - destruct (index_sits m base ix item shape order sh items img o cur ic He Hs Hl Hcur Hir) as [a1 [ec [Ha1 [Hci [Eoc [S1 [B2 B1]]]]]]].
-    cbv zeta in Hci, Eoc. rewrite (nth_error_nth _ _ VNull Hw) in Eoc.
+    assert (Ht2 : targets_ok f w m (base + seval ld ix a1)) by (rewrite Hpos; eapply tok_field; eassumption).
+    destruct (IH ec (base + seval ld ix a1) a1 Eoc S1 Hl2 Ht2 Hc2) as [a [e [Ha [Ee [Se [Te [Le C]]]]]]].
+    exists a, e. cbn [spec_addr]. rewrite Ha1. split; [exact Ha|]. split; [exact Ee|]. split; [exact Se|]. split; [exact Te|]. split; [exact Le|].
+    intros Hnr. destruct (C ltac:(intros Hin; apply Hnr; right; exact Hin)) as [C1 C2]. lia.
+  - destruct (index_sits m base ix item shape order sh items img o cur ic He Hs Hl Hcur Hir) as [a1 [ec [es1 [Ha1 [Hci [Eoc [S1 [B2 [B1 [Ees1 Hpos1]]]]]]]]]].
+    cbv zeta in Hci, Eoc, Hpos1. rewrite (nth_error_nth _ _ VNull Hw) in Eoc.
     pose proof (len_nonneg ec).
     assert (Hl2 : len ec < 2^62) by lia.
     assert (Hc2 : seval ld ix a1 = base + seval ld ix a1 - base) by lia.
-    destruct (IH ec (base + seval ld ix a1) a1 Eoc S1 Hl2 Hc2) as [a [e [Ha [Ee [Se [C1 C2]]]]]].
-    exists a, e. cbn [spec_addr]. rewrite Ha1. split; [exact Ha|]. split; [exact Ee|]. split; [exact Se|]. lia.
+    assert (Ht2 : targets_ok item w m (base + seval ld ix a1)).
+    { rewrite Hpos1. rewrite targets_ok_array_eq, Ees1 in Htok. specialize (Htok _ Hci). rewrite (nth_error_nth _ _ VNull Hw) in Htok. exact Htok. }
+    destruct (IH ec (base + seval ld ix a1) a1 Eoc S1 Hl2 Ht2 Hc2) as [a [e [Ha [Ee [Se [Te [Le C]]]]]]].
+    exists a, e. cbn [spec_addr]. rewrite Ha1. split; [exact Ha|]. split; [exact Ee|]. split; [exact Se|]. split; [exact Te|]. split; [exact Le|].
+    intros Hnr. destruct (C ltac:(intros Hin; apply Hnr; right; exact Hin)) as [C1 C2]. lia.
+  - cbn [targets_ok] in Htok. destruct Htok as [Hr [Hnn [timg [Et [St [Lt Tt]]]]]].
+    assert (Hc2 : seval ld ix (sadd cur (SLoad cur)) = (o + rd64 m o) - base).
+    { cbn [sadd seval]. rewrite ld_eq, Hcur. replace (base + (o - base)) with o by lia. lia. }
+    destruct (IH timg (o + rd64 m o) (sadd cur (SLoad cur)) Et St Lt Tt Hc2) as [a [e [Ha [Ee [Se [Te [Le C]]]]]]].
+    exists a, e. cbn [spec_addr]. split; [exact Ha|]. split; [exact Ee|]. split; [exact Se|]. split; [exact Te|]. split; [exact Le|].
+    intros Hnr. exfalso. apply Hnr. left. reflexivity.
 Qed.
 End WithMem3.
 
 (* ---------- end to end: an accessor accepted by the validator, run on a buffer that holds the documented
-   image of a value, with in-range indices, computes the address at which the image of the addressed element
-   sits, inside the object; for a scalar leaf the bytes there are the element's bytes ---------- *)
+   image of a value (reference slots holding what they must), with in-range indices, computes the address at
+   which the image of the addressed element sits; without reference steps that is inside the object; for a
+   scalar leaf the bytes there are the element's bytes ---------- *)
 From XO Require Import CExprProofs CSpecProofs.
 
 Theorem accessor_addresses_element f v img m o ix lt lv ic' :
   cfun_ok f = None -> (cf_action f = AGetp \/ ((cf_action f = AGet \/ cf_action f = ASet) /\ exists k, lt = TScalar k)) ->
   nav ix (cf_ty f) v (cf_path f) 0 lt lv ic' ->
-  enc (cf_ty f) v = Some img -> sits img m o -> len img < 2^62 ->
+  enc (cf_ty f) v = Some img -> sits img m o -> len img < 2^62 -> targets_ok (cf_ty f) v m o ->
   let addr := o + crun (ld m o) ix (cf_body f) (cf_final f) in
-  exists e, enc lt lv = Some e /\ sits e m addr /\ o <= addr /\ addr + len e <= o + len img.
+  exists e, enc lt lv = Some e /\ sits e m addr /\ (~ In PRef (cf_path f) -> o <= addr /\ addr + len e <= o + len img).
 Proof.
-  intros Hok Hact Hnav He Hs Hl addr.
+  intros Hok Hact Hnav He Hs Hl Htok addr.
   destruct (cfun_ok_sound f Hok) as [spec [Hspec Hrun]].
-  destruct (spec_addr_sits m o ix _ _ _ _ _ _ _ Hnav img o (sc 0) He Hs Hl ltac:(cbn; lia)) as [a [e [Ha [Ee [Se [B1 B2]]]]]].
+  destruct (spec_addr_sits m o ix _ _ _ _ _ _ _ Hnav img o (sc 0) He Hs Hl Htok ltac:(cbn; lia)) as [a [e [Ha [Ee [Se [_ [_ B]]]]]]].
   unfold spec_expr in Hspec. rewrite Ha in Hspec.
   assert (spec = a).
   { destruct Hact as [E|[[E|E] [k Ek]]]; rewrite E in Hspec; [inversion Hspec; reflexivity| |]; subst lt; inversion Hspec; reflexivity. }
-  subst spec. exists e. unfold addr. rewrite Hrun. split; [exact Ee|]. split; [exact Se|]. split; [exact B1|exact B2].
+  subst spec. exists e. unfold addr. rewrite Hrun. split; [exact Ee|]. split; [exact Se|exact B].
 Qed.
 
 Corollary getter_reads_the_element f v img m o ix k bs ic' :
   cfun_ok f = None -> cf_action f = AGet ->
   nav ix (cf_ty f) v (cf_path f) 0 (TScalar k) (VNum bs) ic' ->
-  enc (cf_ty f) v = Some img -> sits img m o -> len img < 2^62 ->
+  enc (cf_ty f) v = Some img -> sits img m o -> len img < 2^62 -> targets_ok (cf_ty f) v m o ->
   let addr := o + crun (ld m o) ix (cf_body f) (cf_final f) in
-  rd m addr (ssize k) = bs /\ o <= addr /\ addr + ssize k <= o + len img.
+  rd m addr (ssize k) = bs /\ (~ In PRef (cf_path f) -> o <= addr /\ addr + ssize k <= o + len img).
 Proof.
-  intros Hok Hact Hnav He Hs Hl addr.
-  destruct (accessor_addresses_element f v img m o ix (TScalar k) (VNum bs) ic' Hok ltac:(right; split; [left; exact Hact|exists k; reflexivity]) Hnav He Hs Hl) as [e [Ee [Se [B1 B2]]]].
-  fold addr in Se, B1, B2. cbn [enc] in Ee. destruct (len bs =? ssize k) eqn:E; [|discriminate]. apply Z.eqb_eq in E. inversion Ee; subst e.
-  rewrite len_bytes, E in B2. split; [|split; assumption]. rewrite <- E. apply sits_bytes_rd. exact Se.
+  intros Hok Hact Hnav He Hs Hl Htok addr.
+  destruct (accessor_addresses_element f v img m o ix (TScalar k) (VNum bs) ic' Hok ltac:(right; split; [left; exact Hact|exists k; reflexivity]) Hnav He Hs Hl Htok) as [e [Ee [Se B]]].
+  fold addr in Se, B. cbn [enc] in Ee. destruct (len bs =? ssize k) eqn:E; [|discriminate]. apply Z.eqb_eq in E. inversion Ee; subst e.
+  rewrite len_bytes, E in B. split; [|exact B]. rewrite <- E. apply sits_bytes_rd. exact Se.
 Qed.
+
 Lemma dims_in_header (m : mem) item shape order sh items img off :
   enc (TArray item shape order) (VArr sh items) = Some img -> sits img m off -> 0 < ndyn shape ->
   shape_ok shape sh = true /\ forall j, (j < length (dyn_dims shape sh))%nat -> rd64 m (off + 8 + 8 * Z.of_nat j) = nth j (dyn_dims shape sh) 0.
@@ -537,12 +629,12 @@ Qed.
 Theorem len_accessor_returns_item_count f v img m o ix item shape order sh items ic' :
   cfun_ok f = None -> cf_action f = ALen ->
   nav ix (cf_ty f) v (cf_path f) 0 (TArray item shape order) (VArr sh items) ic' ->
-  enc (cf_ty f) v = Some img -> sits img m o -> len img < 2^62 ->
+  enc (cf_ty f) v = Some img -> sits img m o -> len img < 2^62 -> targets_ok (cf_ty f) v m o ->
   crun (ld m o) ix (cf_body f) (cf_final f) = prod sh /\ prod sh = len items.
 Proof.
-  intros Hok Hact Hnav He Hs Hl.
+  intros Hok Hact Hnav He Hs Hl Htok.
   destruct (cfun_ok_sound f Hok) as [spec [Hspec Hrun]].
-  destruct (spec_addr_sits m o ix _ _ _ _ _ _ _ Hnav img o (sc 0) He Hs Hl ltac:(cbn; lia)) as [a [e [Ha [Ee [Se [B1 B2]]]]]].
+  destruct (spec_addr_sits m o ix _ _ _ _ _ _ _ Hnav img o (sc 0) He Hs Hl Htok ltac:(cbn; lia)) as [a [e [Ha [Ee [Se [Te [Le B]]]]]]].
   unfold spec_expr in Hspec. rewrite Ha, Hact in Hspec. inversion Hspec; subst spec. clear Hspec. rewrite Hrun.
   assert (Gn : len items = prod sh).
   { cbn [enc] in Ee. destruct (shape_ok shape sh && perm_ok order (length shape) && (len items =? prod sh) && words_fit item shape order sh) eqn:G; [|discriminate].
@@ -558,4 +650,88 @@ Proof.
       apply andb_prop in G. destruct G as [G _]. apply andb_prop in G. destruct G as [G _]. apply andb_prop in G. tauto. }
     apply (len_expr_eval m o ix a (o + seval (ld m o) ix a) ltac:(lia) shape sh 0 Gs).
     rewrite (dyn_dims_nil shape sh Gs E0). intros j Hj. cbn in Hj. lia.
+Qed.
+
+(* union references: an accepted *_typeid accessor returns the member index (-1 for none), an accepted
+   *_member accessor returns the address at which the referent's image sits *)
+Theorem typeid_accessor_returns_member_index f v img m o ix ms lv ic' :
+  cfun_ok f = None -> cf_action f = ATypeid ->
+  nav ix (cf_ty f) v (cf_path f) 0 (TUnion ms) lv ic' ->
+  enc (cf_ty f) v = Some img -> sits img m o -> len img < 2^62 -> targets_ok (cf_ty f) v m o ->
+  crun (ld m o) ix (cf_body f) (cf_final f) = match lv with VMember k _ => Z.of_nat k | _ => -1 end.
+Proof.
+  intros Hok Hact Hnav He Hs Hl Htok.
+  destruct (cfun_ok_sound f Hok) as [spec [Hspec Hrun]].
+  destruct (spec_addr_sits m o ix _ _ _ _ _ _ _ Hnav img o (sc 0) He Hs Hl Htok ltac:(cbn; lia)) as [a [e [Ha [Ee [Se [Te [Le B]]]]]]].
+  unfold spec_expr in Hspec. rewrite Ha, Hact in Hspec. inversion Hspec; subst spec. clear Hspec. rewrite Hrun.
+  cbn [sadd sc seval]. rewrite ld_eq.
+  destruct lv as [| | | | | |k w]; try discriminate.
+  - cbn [targets_ok] in Te. destruct Te as [_ [_ H1]]. replace (o + (seval (ld m o) ix a + 8)) with (o + seval (ld m o) ix a + 8) by lia. exact H1.
+  - change (targets_ok (TUnion ms) (VMember k w) m (o + seval (ld m o) ix a)) with
+      (in_rangeb m (o + seval (ld m o) ix a) 16 = true /\ rd64 m (o + seval (ld m o) ix a) <> NULLVALUE /\
+       rd64 m (o + seval (ld m o) ix a + 8) = Z.of_nat k /\ tok_pick m (o + seval (ld m o) ix a + rd64 m (o + seval (ld m o) ix a)) w ms k) in Te.
+    destruct Te as [_ [_ [H1 _]]]. replace (o + (seval (ld m o) ix a + 8)) with (o + seval (ld m o) ix a + 8) by lia. exact H1.
+Qed.
+
+Lemma tok_pick_nth m base w : forall ms k, tok_pick m base w ms k -> exists mt timg, nth_error ms k = Some mt /\ enc mt w = Some timg /\ sits timg m base.
+Proof.
+  induction ms as [|mt ms IH]; intros k H; [destruct k; destruct H|]. destruct k as [|k]; cbn [tok_pick] in H.
+  - destruct H as [timg [E [S _]]]. exists mt, timg. split; [reflexivity|]. split; assumption.
+  - destruct (IH k H) as [mt' [timg [A [B C]]]]. exists mt', timg. split; [exact A|]. split; assumption.
+Qed.
+
+Theorem member_accessor_addresses_member f v img m o ix ms k w ic' :
+  cfun_ok f = None -> cf_action f = AMember ->
+  nav ix (cf_ty f) v (cf_path f) 0 (TUnion ms) (VMember k w) ic' ->
+  enc (cf_ty f) v = Some img -> sits img m o -> len img < 2^62 -> targets_ok (cf_ty f) v m o ->
+  exists mt timg, nth_error ms k = Some mt /\ enc mt w = Some timg /\ sits timg m (o + crun (ld m o) ix (cf_body f) (cf_final f)).
+Proof.
+  intros Hok Hact Hnav He Hs Hl Htok.
+  destruct (cfun_ok_sound f Hok) as [spec [Hspec Hrun]].
+  destruct (spec_addr_sits m o ix _ _ _ _ _ _ _ Hnav img o (sc 0) He Hs Hl Htok ltac:(cbn; lia)) as [a [e [Ha [Ee [Se [Te [Le B]]]]]]].
+  unfold spec_expr in Hspec. rewrite Ha, Hact in Hspec. inversion Hspec; subst spec. clear Hspec. rewrite Hrun.
+  change (targets_ok (TUnion ms) (VMember k w) m (o + seval (ld m o) ix a)) with
+      (in_rangeb m (o + seval (ld m o) ix a) 16 = true /\ rd64 m (o + seval (ld m o) ix a) <> NULLVALUE /\
+       rd64 m (o + seval (ld m o) ix a + 8) = Z.of_nat k /\ tok_pick m (o + seval (ld m o) ix a + rd64 m (o + seval (ld m o) ix a)) w ms k) in Te.
+  destruct Te as [_ [_ [_ Hp]]]. destruct (tok_pick_nth _ _ _ _ _ Hp) as [mt [timg [A [B1 C]]]].
+  exists mt, timg. split; [exact A|]. split; [exact B1|].
+  cbn [sadd seval]. rewrite ld_eq. replace (o + (seval (ld m o) ix a + rd64 m (o + seval (ld m o) ix a))) with (o + seval (ld m o) ix a + rd64 m (o + seval (ld m o) ix a)) by lia. exact C.
+Qed.
+
+(* ---------- alignment: every field, the data area of every array and every dynamically sized item
+   start on a slot boundary relative to the object they belong to ---------- *)
+Lemma field_off_aligned fs es i : field_off fs es i mod 8 = 0.
+Proof.
+  unfold field_off. cbv zeta.
+  pose proof (sumz_psz_mod8 (spairs (firstn i fs) (firstn i es))) as A.
+  pose proof (sumz_psz_mod8 (spairs fs es)) as B. pose proof (sumz_psz_mod8 (dpairs (firstn i fs) (firstn i es))) as C.
+  destruct (len (dpairs fs es) =? 0); [exact A|]. destruct (nth_error fs i) as [f|]; [|reflexivity].
+  destruct (is_static f).
+  - rewrite Z.add_mod, A by lia. reflexivity.
+  - replace (8 + sumz (psz (spairs fs es)) + 8 * (len (dpairs fs es) - 1) + sumz (psz (dpairs (firstn i fs) (firstn i es))))
+      with (sumz (psz (spairs fs es)) + sumz (psz (dpairs (firstn i fs) (firstn i es))) + len (dpairs fs es) * 8) by lia.
+    rewrite Z_mod_plus_full, Z.add_mod, B, C by lia. reflexivity.
+Qed.
+Lemma arr_header_aligned st shape : arr_header st shape mod 8 = 0.
+Proof.
+  unfold arr_header. set (nd := ndyn shape).
+  destruct (st && (nd =? 0)); destruct ((0 <? nd) && (1 <? len shape)).
+  - replace (0 + 8 * nd + 8 * len shape) with (0 + (nd + len shape) * 8) by lia. apply Z_mod_plus_full.
+  - replace (0 + 8 * nd + 0) with (0 + nd * 8) by lia. apply Z_mod_plus_full.
+  - replace (8 + 8 * nd + 8 * len shape) with (0 + (1 + nd + len shape) * 8) by lia. apply Z_mod_plus_full.
+  - replace (8 + 8 * nd + 0) with (0 + (1 + nd) * 8) by lia. apply Z_mod_plus_full.
+Qed.
+Lemma sumz_firstn_mod8 : forall l k, Forall (fun x => x mod 8 = 0) l -> sumz (firstn k l) mod 8 = 0.
+Proof.
+  induction l as [|x l IH]; intros k H; [destruct k; reflexivity|]. destruct k as [|k]; [reflexivity|]. inversion H as [|? ? Hx Hl]; subst.
+  cbn [firstn]. rewrite sumz_cons, Z.add_mod, Hx, (IH k Hl) by lia. reflexivity.
+Qed.
+Lemma item_pos_aligned_dyn item shape order sh es c : csize item = None -> item_pos item shape order sh es c mod 8 = 0.
+Proof.
+  intros Ci. unfold item_pos. rewrite Ci.
+  pose proof (arr_header_aligned false shape) as A.
+  pose proof (sumz_firstn_mod8 (szs (es_mem_of sh order es)) (Z.to_nat (Perm.mem_pos sh order (unpos sh (Z.of_nat c)))) (szs_mod8 _)) as B.
+  replace (arr_header false shape + 8 * prod sh + sumz (firstn (Z.to_nat (Perm.mem_pos sh order (unpos sh (Z.of_nat c)))) (szs (es_mem_of sh order es))))
+    with (arr_header false shape + sumz (firstn (Z.to_nat (Perm.mem_pos sh order (unpos sh (Z.of_nat c)))) (szs (es_mem_of sh order es))) + prod sh * 8) by lia.
+  rewrite Z_mod_plus_full, Z.add_mod, A, B by lia. reflexivity.
 Qed.
